@@ -890,12 +890,14 @@ impl Indexable for ast::SimpleValue {
             ast::SimpleValue::Uninitialized(_) => Some(Type::Uninitialized),
             ast::SimpleValue::Bits(bits) => {
                 // an element that is itself several bits wide (`{ x{1-0}, 1, 0 }`) contributes all of them
-                let mut width = 0;
+                let mut width: usize = 0;
                 for value in bits.value_list()?.values() {
-                    width += match value.index(ctx) {
+                    let element_width = match value.index(ctx) {
                         Some(Type::Bits(element_width)) => element_width,
                         _ => utils::binary_literal_width(&value).unwrap_or(1),
                     };
+                    // (elements of type `bits<9223372036854775807>` add up to more than fits)
+                    width = width.saturating_add(element_width);
                 }
                 Some(Type::Bits(width))
             }
